@@ -331,6 +331,8 @@ type fdaScenario struct {
 	name    string
 	run     func(x *fdaCtx)
 	noChurn bool // scenarios that count free descriptor numbers exactly
+	// probes of known findings: number of descriptors expected to stay open at the end
+	expectLeft int
 }
 
 func fdaEchoScenario(network string, serverCloses bool, nconn int) func(x *fdaCtx) {
@@ -935,8 +937,8 @@ func fdaScenarios() []fdaScenario {
 		{name: "dial-fails", run: fdaDialFailScenario},
 		{name: "poller", run: fdaPollerScenario},
 		{name: "rlimit", run: fdaRlimitScenario, noChurn: true},
-		{name: "rlimit-create-listener", run: fdaRlimitListenerScenario, noChurn: true},
-		{name: "rlimit-manager-run", run: fdaRlimitManagerScenario, noChurn: true},
+		{name: "rlimit-create-listener", run: fdaRlimitListenerScenario, noChurn: true, expectLeft: 1},
+		{name: "rlimit-manager-run", run: fdaRlimitManagerScenario, noChurn: true, expectLeft: 2},
 	}
 }
 
@@ -1033,8 +1035,10 @@ func VerifFdAuditMain(args []string) int {
 		final = fdaCensus()
 		return fdaInts(final) == fdaInts(base)
 	}
-	if sc.name == "rlimit-create-listener" || sc.name == "rlimit-manager-run" {
-		fdaWait(same, 100*time.Millisecond) // a descriptor is expected to stay (known finding): do not wait long
+	if sc.expectLeft > 0 {
+		// descriptors are expected to stay (known finding): wait until only that many are left, then a little more
+		fdaWait(func() bool { final = fdaCensus(); return len(final) <= len(base)+sc.expectLeft }, 8*time.Second)
+		fdaWait(same, 50*time.Millisecond)
 	} else {
 		fdaWait(same, 8*time.Second)
 	}
